@@ -42,6 +42,7 @@ func c35Pool() []pki.ACert {
 }
 
 type universe struct {
+	mu    sync.Mutex // the scripted remotes of simultaneous calls share the universe
 	w     *pki.World
 	cache map[string]cppki.SignedTRC
 }
@@ -51,6 +52,8 @@ type universe struct {
 //	a, b    the two genuine chains (b differs in the description only)
 //	af, bf  the same with a validity starting two days from now
 func (u *universe) trc(kind string, k int) cppki.SignedTRC {
+	u.mu.Lock()
+	defer u.mu.Unlock()
 	key := fmt.Sprintf("%s/%d", kind, k)
 	if t, ok := u.cache[key]; ok {
 		return t
@@ -93,7 +96,8 @@ func (u *universe) trc(kind string, k int) cppki.SignedTRC {
 // content names the stored TRC ("x" if it is none of the genuine ones).
 func (u *universe) content(t cppki.SignedTRC) string {
 	for _, kind := range []string{"a", "b", "af", "bf"} {
-		if bytes.Equal(u.trc(kind, int(t.TRC.ID.Serial)).Raw, t.Raw) {
+		// TRC equality is payload equality (doc/cryptography/trc.rst)
+		if bytes.Equal(u.trc(kind, int(t.TRC.ID.Serial)).TRC.Raw, t.TRC.Raw) {
 			return kind
 		}
 	}
